@@ -208,11 +208,17 @@ class P(object):
     if self.is_const:
       return o.scale(self.cval)
     t = {}
+    extra = None
     for m1, c1 in self.t.items():
       for m2, c2 in o.t.items():
         m = _mul_mono(m1, m2)
-        v = t.get(m)
         c = c1 * c2
+        if _has_square_root(m):
+          # sqrt(x)^2 == x (x >= 0 is the domain obligation of the root)
+          q = _expand_roots(m).scale(c)
+          extra = q if extra is None else extra + q
+          continue
+        v = t.get(m)
         if v is None:
           t[m] = c
         else:
@@ -221,7 +227,8 @@ class P(object):
             del t[m]
           else:
             t[m] = v
-    return P(t)
+    r = P(t)
+    return r if extra is None else r + extra
 
   __rmul__ = __mul__
 
@@ -356,6 +363,29 @@ def _mul_mono(m1, m2):
   for i, e in m2:
     d[i] = d.get(i, 0) + e
   return tuple(sorted(d.items()))
+
+
+def _has_square_root(m):
+  for i, e in m:
+    if e >= 2:
+      a = ATOMS[i]
+      if a.kind == 'fn' and a.name == 'root2':
+        return True
+  return False
+
+
+def _expand_roots(m):
+  r = P.const(1)
+  for i, e in m:
+    a = ATOMS[i]
+    if a.kind == 'fn' and a.name == 'root2' and e >= 2:
+      for _ in range(e // 2):
+        r = r * a.args[0]
+      if e % 2:
+        r = r * P.of_atom(a)
+    else:
+      r = r * P({((i, e),): Fr(1)})
+  return r
 
 
 def eval_atom(a, env, cache):
